@@ -6,6 +6,7 @@ Structure of the event probabilities of the shipped problems, with the special f
   Forest     : [[1−p, p], [1, 0]]
 Core Lean only.
 -/
+import MdpaxV.Model.Shipped
 namespace MdpaxV
 section
 variable {α : Type} [Add α] [Mul α] [Zero α] [One α] [Sub α]
@@ -56,6 +57,11 @@ def multinomialPmf (ps : List α) (ks : List Nat) : α := (multi ks : α) * powP
 /-- Mirjalili event probability: demand probability × (split probability if the split sums to the order, else 0) -/
 def mirjaliliProb (demandP : Nat → α) (cat : Nat → List α) (order : Nat) (d : Nat) (k : List Nat) : α :=
   demandP d * (if k.sum = order then multinomialPmf (cat order) k else 0)
+
+/-- one (weekday, order) row of Mirjalili event probabilities, in the order of `mirjaliliEvents`: the event vector is
+    `[demand, received_1, …, received_m]` -/
+def mirjaliliRow {β : Type} (c : MirjaliliCfg β) (demandP : Nat → α) (cat : Nat → List α) (order : Nat) : List α :=
+  (mirjaliliEvents c).map fun ev => mirjaliliProb demandP cat order (ev.headD 0).toNat ((ev.drop 1).map Int.toNat)
 
 end
 end MdpaxV
